@@ -334,7 +334,7 @@ pub fn run_case(c: &MountCase, acc: &mut Acc, verbose: bool) -> Result<(), Failu
                 acc.class("invalid:random:still-mounts");
             }
             if *sigs {
-                acc.shape(&("rand", &mbr[440..mbr.len().min(512)].to_vec(), &boot[..boot.len().min(64)].to_vec()));
+                acc.shape(&("rand", &m[440..512].to_vec(), &b[..64].to_vec()));
             }
             Ok(())
         }
